@@ -34,6 +34,8 @@ pub struct Target {
 }
 
 pub struct Pkg {
+    /// module name of the root file (`pkg` unless a family varies it)
+    pub root_module: &'static str,
     pub root: String,
     pub sub: String,
     pub targets: Vec<Target>,
@@ -166,6 +168,16 @@ pub fn package(tier: Tier) -> Pkg {
     // filtermaps whose payload type is inferred from unannotated literals
     // (one side used; the inferred-payload family has all combinations)
     for tg in inferred_one_sided() {
+        root.push_str(&tg.src);
+        root.push('\n');
+        t.push(tg);
+    }
+    // a second item that constrains the inferred payload: the signature of a
+    // filtermap is inferred package-wide (audit V4: by design)
+    for tg in [
+        func("cc_b", "inferred", vec![], ver(l(Leaf::U8), l(Leaf::Str)), "filtermap cc_b() { accept 1 }".into()),
+        func("cc_g", "inferred", vec![], ver(l(Leaf::U8), l(Leaf::Str)), "fn cc_g() -> Verdict[u8, String] { cc_b() }".into()),
+    ] {
         root.push_str(&tg.src);
         root.push('\n');
         t.push(tg);
@@ -358,7 +370,7 @@ pub fn package(tier: Tier) -> Pkg {
         t.iter().filter(|x| x.expect != Expect::Nothing).map(|x| x.name.clone()).collect();
     t.retain(|x| x.expect != Expect::Nothing || seen.insert(x.name.clone()));
 
-    Pkg { root, sub, targets: t }
+    Pkg { root_module: "pkg", root, sub, targets: t }
 }
 
 // ------------------------------------------------------------------ inferred payloads
@@ -499,6 +511,20 @@ pub fn inferred_package() -> Pkg {
         let src = format!("filtermap {name}(x: u8) {{ {body} }}");
         t.push(func(name, "inferred", vec![l(Leaf::U8)], ver(l(Leaf::U8), rej), src));
     }
+    // a second item of the package constrains the inferred payload: the
+    // filtermap's signature is the package-wide inferred one
+    for (n, body, gsig, a, r) in [
+        ("cc1", "accept 1", "Verdict[u16, i64]", Leaf::U16, Leaf::I64),
+        ("cc2", "reject 1.5", "Verdict[u8, f32]", Leaf::U8, Leaf::F32),
+        ("cc3", "if eb(0, true) { accept 1 } else { reject 2 }", "Verdict[i8, u64]", Leaf::I8, Leaf::U64),
+        ("cc4", "accept -1", "Verdict[i16, ()]", Leaf::I16, Leaf::Unit),
+        ("cc5", "accept [1, 2]", "Verdict[List[u8], f64]", Leaf::U8, Leaf::F64),
+    ] {
+        let a = if n == "cc5" { c04p::ty::list(l(a)) } else { l(a) };
+        let sig = ver(a, l(r));
+        t.push(func(&format!("{n}_b"), "inferred", vec![], sig.clone(), format!("filtermap {n}_b() {{ {body} }}")));
+        t.push(func(&format!("{n}_g"), "pinned", vec![], sig, format!("fn {n}_g() -> {gsig} {{ {n}_b() }}")));
+    }
     let mut root = String::new();
     for x in &t {
         root.push_str(&x.src);
@@ -506,5 +532,75 @@ pub fn inferred_package() -> Pkg {
     }
     t.push(nothing("ia_", "unknown"));
     t.push(nothing("nope", "unknown"));
-    Pkg { root, sub: String::new(), targets: t }
+    Pkg { root_module: "pkg", root, sub: String::new(), targets: t }
+}
+
+// ------------------------------------------------------------------ string views (audit V1)
+
+/// Functions that really take / return the string views (as value, Option,
+/// List), and mismatching ones of the same shapes.
+pub fn views_package() -> Pkg {
+    use c04p::ty::{list, opt};
+    let mut t = vec![];
+    let s = || l(Leaf::Str);
+    for (view, m) in [(Leaf::Lines, "lines"), (Leaf::Bytes, "bytes"), (Leaf::Chars, "chars")] {
+        let ty = view.roto();
+        let d = l(view);
+        t.push(func(&format!("v_{m}"), "views", vec![s()], d.clone(), format!("fn v_{m}(s: String) -> {ty} {{ s.{m}() }}")));
+        t.push(func(&format!("p_{m}"), "views", vec![d.clone()], unit(), format!("fn p_{m}(x: {ty}) {{}}")));
+        t.push(func(&format!("r_{m}"), "views", vec![], d.clone(), format!("fn r_{m}() -> {ty} {{ \"a\".{m}() }}")));
+        t.push(func(&format!("po_{m}"), "views", vec![opt(d.clone())], unit(), format!("fn po_{m}(x: {ty}?) {{}}")));
+        t.push(func(
+            &format!("ro_{m}"),
+            "views",
+            vec![],
+            opt(d.clone()),
+            format!("fn ro_{m}() -> {ty}? {{ Option.Some(\"a\".{m}()) }}"),
+        ));
+        t.push(func(&format!("pl_{m}"), "views", vec![list(d.clone())], unit(), format!("fn pl_{m}(x: List[{ty}]) {{}}")));
+        t.push(func(&format!("rl_{m}"), "views", vec![], list(d.clone()), format!("fn rl_{m}() -> List[{ty}] {{ [\"a\".{m}()] }}")));
+    }
+    // the same shapes without a view
+    t.push(func("v_ident", "views-control", vec![s()], s(), "fn v_ident(s: String) -> String { s }".into()));
+    t.push(func("p_str", "views-control", vec![s()], unit(), "fn p_str(x: String) {}".into()));
+    t.push(func("r_str", "views-control", vec![], s(), "fn r_str() -> String { \"a\" }".into()));
+    t.push(func("po_str", "views-control", vec![opt(s())], unit(), "fn po_str(x: String?) {}".into()));
+    t.push(func("ro_str", "views-control", vec![], opt(s()), "fn ro_str() -> String? { Option.Some(\"a\") }".into()));
+    t.push(func("pl_str", "views-control", vec![list(s())], unit(), "fn pl_str(x: List[String]) {}".into()));
+    t.push(func("rl_str", "views-control", vec![], list(s()), "fn rl_str() -> List[String] { [\"a\"] }".into()));
+    t.push(func("p_u8", "views-control", vec![l(Leaf::U8)], unit(), "fn p_u8(x: u8) {}".into()));
+    t.push(func("r_u8", "views-control", vec![], l(Leaf::U8), "fn r_u8() -> u8 { 7 }".into()));
+    t.push(func("v_len", "views-control", vec![s()], l(Leaf::U8), "fn v_len(s: String) -> u8 { 7 }".into()));
+    let mut root = String::new();
+    for x in &t {
+        root.push_str(&x.src);
+        root.push('\n');
+    }
+    t.push(nothing("nope", "unknown"));
+    Pkg { root_module: "pkg", root, sub: String::new(), targets: t }
+}
+
+// ------------------------------------------------------------------ root module name (audit V3)
+
+pub const ROOT_NAMES: [&str; 2] = ["pkg", "main"];
+
+/// A small package built in memory with `FileTree::file_spec`, whose root
+/// module is called `root_module`. Names are relative to the root.
+pub fn roots_package(root_module: &'static str) -> Pkg {
+    let mut t = vec![];
+    t.push(func("f", "root", vec![], l(Leaf::I32), "fn f() -> i32 { 1 }".into()));
+    t.push(func("p", "root", vec![l(Leaf::U8)], unit(), "fn p(x: u8) {}".into()));
+    t.push(func("r", "root", vec![], l(Leaf::Str), "fn r() -> String { \"a\" }".into()));
+    t.push(func("test#t", "root", vec![], ver(unit(), unit()), "test t { accept }".into()));
+    let mut root = String::new();
+    for x in &t {
+        root.push_str(&x.src);
+        root.push('\n');
+    }
+    let sub = "fn q(x: u8) {}\n".to_string();
+    t.push(func("sub.q", "root", vec![l(Leaf::U8)], unit(), "sub.roto: fn q(x: u8) {}".into()));
+    for n in ["pkg.f", "main.f", "pkg.p", "main.p", "pkg.sub.q", "main.sub.q", "q", "pkg", "main", "pkg.main.f", "main.pkg.f"] {
+        t.push(nothing(n, "root module name spelled out"));
+    }
+    Pkg { root_module, root, sub, targets: t }
 }
